@@ -31,7 +31,10 @@ type Front struct {
 	ImportAtStart  bool    `json:"import_at_start,omitempty"`
 	HandlerReturns bool    `json:"handler_returns,omitempty"` // HandleErr returns instead of panicking
 	NoSkipConst    bool    `json:"no_skip_const,omitempty"`
-	XGoBuiltin     bool    `json:"xgo_builtin,omitempty"` // XGo-style configuration: untyped big types, overloaded println, builtin-type methods
+	EarlyWrites    []int   `json:"early_writes,omitempty"` // every file is written (and the result dropped) after these body ordinals
+	Rewrites       int     `json:"rewrites,omitempty"`     // extra rounds of writing every file at the end (the last round counts)
+	WriteOrder     []int   `json:"write_order,omitempty"`  // order in which the files are written at the end (permutation code)
+	XGoBuiltin     bool    `json:"xgo_builtin,omitempty"`  // XGo-style configuration: untyped big types, overloaded println, builtin-type methods
 	Faults         []Fault `json:"faults,omitempty"`
 }
 
@@ -237,6 +240,10 @@ func (e *Env) build(p *prog.Program, f *Front, hooks *minicl.Hooks, ce *CorpusEn
 			panic(err)
 		}
 	}
+	early := map[int]bool{}
+	for _, v := range f.EarlyWrites {
+		early[v] = true
+	}
 	opts := &minicl.Options{PkgPath: p.PkgPath, PkgName: tp.Name(), Conf: conf, Hooks: hooks,
 		BodiesEarly: f.BodiesEarly, ImportAtStart: f.ImportAtStart, ForceImports: p.ForceImports}
 	if ce != nil {
@@ -244,6 +251,27 @@ func (e *Env) build(p *prog.Program, f *Front, hooks *minicl.Hooks, ce *CorpusEn
 	}
 	c := minicl.New(fset, files, tp, info, opts)
 	r.C = c
+	if len(early) > 0 {
+		nbody := 0
+		opts.AfterBody = func(c *minicl.Compiler) {
+			if early[nbody] {
+				// a client that writes files while it is still building (and again at the end)
+				seenF := map[string]bool{}
+				for _, s := range c.Syms() {
+					if !seenF[s.File] {
+						seenF[s.File] = true
+						var sink bytes.Buffer
+						func() {
+							defer func() { recover() }()
+							c.Pkg.WriteTo(&sink, s.File)
+						}()
+					}
+				}
+				r.FaultFired["early_write"]++
+			}
+			nbody++
+		}
+	}
 	if onC != nil {
 		onC(c)
 	}
@@ -329,7 +357,27 @@ func (e *Env) build(p *prog.Program, f *Front, hooks *minicl.Hooks, ce *CorpusEn
 		}
 	}
 	sort.Strings(r.Names)
-	for _, name := range r.Names {
+	worder := append([]string(nil), r.Names...)
+	if len(f.WriteOrder) > 0 && len(worder) > 1 {
+		k := mod(f.WriteOrder[0], len(worder))
+		worder = append(worder[k:], worder[:k]...)
+		if len(f.WriteOrder) > 1 && f.WriteOrder[1]%2 == 1 {
+			for i, j := 0, len(worder)-1; i < j; i, j = i+1, j-1 {
+				worder[i], worder[j] = worder[j], worder[i]
+			}
+		}
+	}
+	for round := 0; round < f.Rewrites; round++ {
+		for i := len(worder) - 1; i >= 0; i-- {
+			var sink bytes.Buffer
+			func() {
+				defer func() { recover() }()
+				c.Pkg.WriteTo(&sink, worder[i])
+			}()
+		}
+		r.FaultFired["rewrite_round"]++
+	}
+	for _, name := range worder {
 		var buf bytes.Buffer
 		func() {
 			defer func() {
